@@ -256,6 +256,15 @@ impl Listener {
     }
 }
 
+#[cfg(feature = "verif")]
+impl Listener {
+    /// Verification hook: number of messages waiting in the listener queues.
+    #[doc(hidden)]
+    pub fn verif_queue_len(&self) -> usize {
+        self.wait_rx.len() + self.no_wait_rx.len()
+    }
+}
+
 impl Drop for Listener {
     fn drop(&mut self) {
         // required for correct drop order
